@@ -53,6 +53,7 @@ func (t *verifTracer) Subscribe() chan tracing.ITrace {
 	return t.SubscribeChannel(make(chan tracing.ITrace, 64))
 }
 func (t *verifTracer) SubscribeChannel(ch chan tracing.ITrace) chan tracing.ITrace {
+	verifYield() // subscribing is a scheduling point: traces sent before it are not seen by this subscriber
 	t.subs = append(t.subs, ch)
 	return ch
 }
